@@ -34,6 +34,7 @@ import gen_ops  # noqa: E402
 import macro_check  # noqa: E402
 import macro_gen  # noqa: E402
 import c18_check  # noqa: E402
+import fill_check  # noqa: E402
 import ops as O  # noqa: E402
 import session  # noqa: E402
 from props import PROPS, CONFIGS, THOROUGH_CONFIGS, AXIOM_ALLOW  # noqa: E402
@@ -470,11 +471,36 @@ def check(pid, tier, seed):
                                 template_idents=r18['template_idents'], patterns=r18['patterns'],
                                 corpus=[dict(program=n, expected='compiles' if e else 'rejected', observed='compiled' if o else f) for n, e, o, f in r18['corpus']])
 
+    fill_info = None
+    fill_viol = []
+    if P.get('fill'):
+        fr = fill_check.run(REPO, CACHE, COQ, debug=False)
+        if fr['error']:
+            broken.append(('build', 'fill probe: ' + fr['error']))
+        else:
+            fill_viol = fr['violations']
+            if fr['correspondence']:
+                broken.append(('correspondence', fr['correspondence']))
+            fill_info = dict(entities_created=fr['entities'], records=fr['records'], growth_steps=len(fr['grows']), last_records=fr['tail'])
+        if tier == 'thorough' and not fr['error']:
+            fr2 = fill_check.run(REPO, CACHE, COQ, debug=True)
+            if fr2['error']:
+                broken.append(('build', 'fill probe (debug): ' + fr2['error']))
+            else:
+                fill_viol += fr2['violations']
+                if fr2['correspondence']:
+                    broken.append(('correspondence', 'debug build: ' + fr2['correspondence']))
+                fill_info['debug_build'] = dict(entities_created=fr2['entities'], records=fr2['records'])
+
     violations = []
     known_hits = []
     kf = known_findings()
     for v in c18_viol:
         path = write_replay(pid, dict(property=pid, kind='specification-violation', harness='c18', detail=v, broken=broken))
+        violations.append('VIOLATION property=%s replay=%s' % (pid, path))
+    for v in fill_viol[:3]:
+        path = write_replay(pid, dict(property=pid, kind='specification-violation', harness='fill', reason=v['reason'], record=v['record'],
+                                      how='harness/fill_probe creates entities in one archetype (u8 component) from an empty world until create panics', broken=broken))
         violations.append('VIOLATION property=%s replay=%s' % (pid, path))
     for c, msg in macro_fail[:3]:
         path = write_replay(pid, dict(property=pid, kind='specification-violation', harness='macro_drive', input=c['line'],
@@ -608,14 +634,14 @@ def check(pid, tier, seed):
             trusted_base=['Coq 8.16.1 kernel incl. vm_compute', 'tools/extract.py (translator)', 'correspondence harness (harness/storage_harness, tools/gen_ops.py, tools/coqrun.py)',
                           'rustc/cargo', 'axioms: ' + (', '.join(axioms) if axioms else 'none (Closed under the global context)')],
             theorems=thms, cone_files=conefiles,
-            evaluations=total_cases + (macro_info['cases'] if macro_info else 0) + ((c18_info['programs'] + c18_info['expansions_checked']) if c18_info else 0),
+            evaluations=total_cases + (1 if fill_info else 0) + (macro_info['cases'] if macro_info else 0) + ((c18_info['programs'] + c18_info['expansions_checked']) if c18_info else 0),
             distinct_nontrivial=len(distinct) + (macro_info['distinct'] if macro_info else 0) + ((c18_info['programs'] + c18_info['expansions_checked']) if c18_info else 0),
             rule='histories generated interactively from VERIF_SEED per stream; non-trivial = at least 10 operations including every kind in %s; distinct by the hash of the operation list' % sorted(need),
             traces_validated_against_impl=total_cases,
             model_disagreements=len(diffs), spec_failures=len(own),
             streams=[dict(config=cn, cases=s['cases'], ops=s['ops'], histories_meeting_run_theorem_hypotheses=s.get('wf_histories', 0), histories_meeting_history_theorem_hypotheses=s.get('hist_histories', 0), ops_by_kind=s['by_kind'], outcomes=s['outcomes']) for cn, s in stats_all],
             samples=([sample] if sample else []) + ([macro_info['sample']] if macro_info else []),
-            macro=macro_info, c18=c18_info, programs=(c18_info['programs'] if c18_info else 0),
+            macro=macro_info, c18=c18_info, fill=fill_info, programs=(c18_info['programs'] if c18_info else 0),
             exhaustive=any(r['case'].get('exhaustive') for r in all_results) if pid == 'C11' else False,
             explanation='machine-checked theorems over the model; model tied to the source by translation (coq/gen regenerated this run) and by differential execution of the same operations on the implementation',
         ),
@@ -652,6 +678,14 @@ def replay(path):
                         return 1
             return 0
         print(json.dumps(d, indent=1))
+        return 0
+    if j.get('harness') == 'fill':
+        fr = fill_check.run(REPO, CACHE, COQ)
+        print('recorded:', j['reason'], '|', j['record'])
+        print('now:', fr['tail'], fr['violations'], fr['error'])
+        if fr['violations']:
+            print('VIOLATION property=%s replay=%s' % (pid, path))
+            return 1
         return 0
     if j.get('harness') == 'macro_drive':
         mdir = os.path.join(ROOT, 'harness', 'macro_drive')
